@@ -231,7 +231,7 @@ def check_label(res, case, sub, text, form, unit, precision, opts, true_value):
                 continue
             if abs(part) < 10.0 ** (-6 - 3):
                 continue
-            P = dict(P, value=sgn * P["value"]) if not P.get("inf") else P
+            P = dict(P, value=sgn * P["value"]) if not P.get("inf") else dict(P, sign=sgn * P.get("sign", 1))
             c18.check_number(tmp, c, P, part, precision, UMK)
     elif L["kind"] == "polar":
         z = complex(true_value)
